@@ -4,7 +4,9 @@ from __future__ import annotations
 import ast
 from typing import List, Optional, Tuple
 
-from ..absint import NONE, AnyIndex, Const, Inst, Interp, Tup
+from ..symx import NONE as SNONE
+from ..symx import Interp as SInterp
+from ..symx import beval, callee, const, elements, kw, reduce_ifexp, show, show_conds, subterms
 from ..astutil import Defs
 from ..core import AnalysisError, attr_chain, cshort, kwarg, short, walk_no_nested, walk_stmts
 from ..effects import MUTATING_BUILTIN
@@ -31,299 +33,324 @@ def run(ctx) -> None:
     ctx.not_decided.append("that the comparison used by sort is a total order on the non-None values (user data)")
 
 
+def _seq_of(it, t):
+    """Strip list()/tuple() wrappers (constructor objects or call terms)."""
+    while True:
+        if t[0] == "obj" and it.objs[t[1]].kind == "list" and isinstance(it.objs[t[1]].node, ast.Call) and len(it.objs[t[1]].init) == 1:
+            t = it.objs[t[1]].init[0]
+        elif t[0] == "call" and t[1] in (("name", "list"), ("name", "tuple")) and len(t[2]) == 1 and not t[3]:
+            t = t[2][0]
+        else:
+            return t
+
+
+def _sort_kwargs(t):
+    return kw(t, "key"), kw(t, "reverse")
+
+
 def _table(ctx) -> None:
     prog = ctx.prog
     f = prog.func("table.Table.sort_by")
-    d = Defs(f)
-    problems = []
-    idx = [n for n, lst in d.assigns.items() if any(v is not None and short(v).startswith("list(range(") for v, _, _ in lst)]
-    if len(idx) != 1:
+    it = SInterp(prog, f)
+    S = ("param", f.params[0])
+    nrows = ("call", ("name", "len"), (S,), ())
+    cols_all = ("attr", S, "_underlying")
+    sh = lambda t, n=70: show(t, it)[:n] if t is not None else "?"
+    # ---- the index permutation ------------------------------------------------------------------------------------
+    ixs = [("obj", oid) for oid, o in it.objs.items() if o.kind == "list" and isinstance(o.node, ast.Call)
+           and o.init == (("call", ("name", "range"), (nrows,), ()),)]
+    sort_events = [e for e in it.events if e.kind == "call" and e.term[1][0] == "attr" and e.term[1][2] == "sort" and e.term[1][1][0] == "obj"]
+    if len(ixs) != 1:
+        cand = {e.term[1][1] for e in sort_events}
+        if len(cand) == 1:
+            ix = cand.pop()
+            ctx.ob("a.permutation", f, "table", False, "", f.node,
+                   message=f"the row index list starts as `{sh(ix)}`, not list(range(len(self)))")
+            return
         raise AnalysisError("Table.sort_by: index list list(range(nrows)) not found")
-    ix = idx[0]
-    if len(d.assigns[ix]) != 1:
-        problems.append(f"`{ix}` is rebound: the result is no longer a permutation of the row indices produced by stable sorts")
-    init = d.assigns[ix][0][0]
-    nr = d.resolve(init.args[0].args[0]) if isinstance(init.args[0], ast.Call) and init.args[0].args else None
-    if nr is None or short(nr) != "len(self)" or len(init.args[0].args) != 1:
-        problems.append(f"`{ix}` starts as `{short(init)}`, not list(range(len(self)))")
-    sorts = []
-    for n in walk_no_nested(f.node):
-        if isinstance(n, ast.Call) and isinstance(n.func, ast.Attribute) and short(n.func.value) == ix:
-            if n.func.attr == "sort":
-                sorts.append(n)
-            elif n.func.attr in MUTATING_BUILTIN:
-                problems.append(f"`{short(n, 40)}` changes the index list other than by a stable sort")
-    for s in walk_stmts(f.body):
-        tg = s.targets if isinstance(s, ast.Assign) else [s.target] if isinstance(s, ast.AugAssign) else s.targets if isinstance(s, ast.Delete) else []
-        for t in tg:
-            if isinstance(t, ast.Subscript) and short(t.value) == ix:
-                problems.append(f"`{short(s, 50)}` writes the index list directly")
-    # rebuild
-    loops = [s for s in f.body if isinstance(s, ast.For) and short(s.iter) == "self._underlying"
-             and any(isinstance(n, ast.Call) and short(n.func).endswith(".append") for n in walk_no_nested(s))]
-    rebuild = [lp for lp in loops if f.body.index(lp) > max((f.body.index(x) for x in f.body if any(c is y for c in sorts for y in ast.walk(x))), default=-1)]
-    if len(rebuild) != 1:
-        problems.append("the columns are not rebuilt in one loop over all columns after sorting")
-    else:
-        lp = rebuild[0]
-        col = lp.target.id
-        dd = {s.targets[0].id: s.value for s in lp.body if isinstance(s, ast.Assign) and isinstance(s.targets[0], ast.Name)}
-        app = [n for n in walk_no_nested(lp) if isinstance(n, ast.Call) and short(n.func).endswith(".append")]
-        v = app[0].args[0] if app else None
-        if not (isinstance(v, ast.Call) and short(v.func) == "Vector" and v.args):
-            problems.append("a result column is not a Vector over gathered data")
-        else:
-            data = v.args[0]
-            data = dd.get(data.id, data) if isinstance(data, ast.Name) else data
-            ok = False
-            if isinstance(data, ast.ListComp) and len(data.generators) == 1 and not data.generators[0].ifs \
-                    and short(data.generators[0].iter) == ix and isinstance(data.elt, ast.Subscript) \
-                    and short(data.elt.slice) == data.generators[0].target.id:
-                src = data.elt.value
-                src = dd.get(src.id, src) if isinstance(src, ast.Name) else src
-                ok = short(src) in (f"{col}._underlying", col)
-            if not ok:
-                problems.append(f"column data is `{short(data, 60)}`, expected [<column storage>[i] for i in {ix}] (every row exactly once, "
-                                f"cells of a row kept together)")
-            nm = kwarg(v, "name")
-            if nm is None or short(nm) != f"{col}._name":
-                problems.append(f"result column is named `{short(nm) if nm is not None else 'nothing'}`, expected {col}._name")
-            if kwarg(v, "dtype") is not None:
-                problems.append("result column is given an explicit dtype")
-        ret = f.body[-1]
-        if not (isinstance(ret, ast.Return) and isinstance(ret.value, ast.Call) and short(ret.value.func) == "Table"):
-            problems.append("does not return a Table of the rebuilt columns")
-    ctx.ob("a.permutation", f, "table", not problems, "one index permutation gathered through every column", f.node, message="; ".join(problems))
-    # ---- b: stability / key order
+    ix = ixs[0]
     problems = []
+    sorts = []
+    for e in it.events:
+        if e.kind == "call" and e.term[1][0] == "attr" and e.term[1][1] == ix:
+            m = e.term[1][2]
+            if m == "sort":
+                sorts.append(e)
+            elif m in MUTATING_BUILTIN:
+                problems.append(f"`{sh(e.term, 40)}` changes the index list other than by a stable sort")
+        if e.kind in ("store", "del") and e.term[0] == "sub" and e.term[1] == ix:
+            problems.append(f"`{sh(e.term, 40)} = ...` writes the index list directly")
+    # every return hands back one Vector per column of self, in order, under the column's stored name
+    rets = [e for e in it.events if e.kind == "return" and e.depth == 0]
+    main_seen = False
+    for r in rets:
+        t = r.term
+        if not (t[0] == "call" and t[1] == ("name", "Table") and len(t[2]) == 1 and not t[3] and t[2][0][0] == "obj"):
+            problems.append(f"`return {sh(t, 50)}` is not a Table of the rebuilt columns")
+            continue
+        rc = t[2][0]
+        els = elements(it, rc)
+        if len(els) != 1 or it.objs[rc[1]].init:
+            problems.append(f"the columns of `return {sh(t, 40)}` are not rebuilt in one pass over all columns")
+            continue
+        e = els[0]
+        v = e.value if e.kind == "elem" else (e.term[2][0] if e.term[2] else None)
+        lps = [L for L in e.loops if L not in it.objs[rc[1]].loops]
+        if len(lps) != 1 or it.loops[lps[0]].iter != cols_all or e.conds[len(it.objs[rc[1]].conds):]:
+            problems.append("the result columns are not produced by one unconditional pass over self's columns in order")
+            continue
+        col = ("elem", cols_all, lps[0])
+        if not (v is not None and v[0] == "call" and v[1] == ("name", "Vector") and v[2]):
+            problems.append("a result column is not a Vector over gathered data")
+            continue
+        data = v[2][0]
+        nm = kw(v, "name")
+        if nm != ("attr", col, "_name"):
+            problems.append(f"result column is named `{sh(nm, 40)}`, expected the source column's stored name")
+        if kw(v, "dtype") is not None or len(v[2]) > 1:
+            problems.append("result column is given an explicit dtype")
+        empty_ok = data[0] == "obj" and it.objs[data[1]].kind == "list" and not it.objs[data[1]].init and not elements(it, data) \
+            and any(c == ("cmp", "Eq", nrows, const(0)) and pol for c, pol in r.conds)
+        if empty_ok:
+            continue
+        ok = False
+        if data[0] == "obj":
+            de = elements(it, data)
+            if len(de) == 1 and not it.objs[data[1]].init:
+                d0 = de[0]
+                dv = d0.value if d0.kind == "elem" else (d0.term[2][0] if d0.term[2] else None)
+                dl = [L for L in d0.loops if L not in e.loops]
+                if len(dl) == 1 and it.loops[dl[0]].iter == ix and not d0.conds[len(e.conds):] and dv is not None \
+                        and dv[0] == "sub" and dv[1] in (col, ("attr", col, "_underlying")) and dv[2] == ("elem", ix, dl[0]):
+                    ok = True
+                    main_seen = True
+                    if sorts and d0.seq < max(x.seq for x in sorts):
+                        problems.append("columns are gathered before the last sort pass")
+        if not ok:
+            problems.append(f"column data is `{sh(data, 60)}`, expected [<column storage>[i] for i in <index list>] (every row exactly once, "
+                            f"cells of a row kept together)")
+    if not main_seen:
+        problems.append("no return gathers every column through the sorted index list")
+    seen = set()
+    problems = [x for x in problems if not (x in seen or seen.add(x))]
+    ctx.ob("a.permutation", f, "table", not problems, "one index permutation gathered through every column", f.node, message="; ".join(problems))
+    # ---- b: stability / key order ----------------------------------------------------------------------------------
+    problems = []
+    key_loop = None
+    RES = REV = None
     if len(sorts) != 1:
         problems.append(f"{len(sorts)} `.sort` calls on the index list, expected one inside the per-key loop")
-    key_loop = None
-    for s in walk_stmts(f.body):
-        if isinstance(s, ast.For) and sorts and any(n is sorts[0] for n in walk_no_nested(s)):
-            key_loop = s
-    mm = None
-    if key_loop is None:
-        problems.append("the sort is not inside a loop over the keys")
     else:
-        it = short(key_loop.iter)
-        tg = [n.id for n in ast.walk(key_loop.target) if isinstance(n, ast.Name)]
-        m = None
-        import re
-        mm = re.fullmatch(r"reversed\(list\(zip\((\w+), (\w+)\)\)\)", it)
-        if not mm or len(tg) != 2:
-            problems.append(f"keys are applied in the order `{it}`, expected reversed(list(zip(<resolved keys>, <reverse flags>))): the last "
-                            f"key first, so that earlier keys dominate (stable sorts)")
+        se = sorts[0]
+        if not se.loops:
+            problems.append("the sort is not inside a loop over the keys")
         else:
-            colv, revv = tg
-            resolved, revs = mm.group(1), mm.group(2)
-            st = sorts[0]
-            rk = kwarg(st, "reverse")
-            if rk is None or short(rk) != revv:
-                problems.append(f"the pass sorts with reverse=`{short(rk) if rk is not None else 'False'}`, expected this key's own flag `{revv}`")
-            kf = kwarg(st, "key")
-            fn = None
-            for s in key_loop.body:
-                if isinstance(s, ast.FunctionDef) and kf is not None and s.name == short(kf):
-                    fn = s
-            if fn is None:
-                problems.append("the sort key function is not defined per key inside the loop")
+            Lp = se.loops[-1]
+            lp = it.loops[Lp]
+            key_loop = lp.node
+            itr = lp.iter
+            order_ok = False
+            if itr is not None and itr[0] == "call" and itr[1] == ("name", "reversed") and len(itr[2]) == 1:
+                z = _seq_of(it, itr[2][0])
+                if z[0] == "call" and z[1] == ("name", "zip") and len(z[2]) == 2 and not z[3]:
+                    RES, REV = z[2]
+                    order_ok = True
+            if not order_ok or len(se.loops) != 1:
+                problems.append(f"keys are applied in the order `{sh(itr, 80)}`, expected reversed(list(zip(<resolved keys>, <reverse flags>))): the "
+                                f"last key first, so that earlier keys dominate (stable sorts)")
             else:
-                dd = {s.targets[0].id: short(s.value) for s in key_loop.body if isinstance(s, ast.Assign) and isinstance(s.targets[0], ast.Name)}
-                defaults = {a.arg: short(dv) for a, dv in zip(fn.args.args[-len(fn.args.defaults):], fn.args.defaults)} if fn.args.defaults else {}
-                data_def = defaults.get("data")
-                data_def = defaults.get(fn.args.args[1].arg) if len(fn.args.args) > 1 else None
-                if not (data_def and dd.get(data_def) == f"{colv}._underlying"):
-                    problems.append("the key function does not read THIS key column's storage (bound per iteration)")
-                if revv not in defaults.values():
-                    problems.append("the key function's rev is not this key's own flag (bound per iteration)")
-            # resolved / rev_flags provenance
-            rs = [s for s in walk_stmts(f.body) if isinstance(s, ast.Expr) and short(s.value).startswith(f"{resolved}.append(")]
-            if len(rs) != 1:
-                problems.append(f"`{resolved}` is not filled once per key")
-    for n in walk_no_nested(f.node):
-        if isinstance(n, ast.Call) and short(n.func) in ("reversed",) and n.args and short(n.args[0]) == ix:
+                elem = ("elem", itr, Lp)
+                colv, revv = ("sub", elem, const(0)), ("sub", elem, const(1))
+                kf, rk = _sort_kwargs(se.term)
+                if se.term[2]:
+                    problems.append("positional arguments to .sort()")
+                if rk != revv:
+                    problems.append(f"the pass sorts with reverse=`{sh(rk, 40) if rk is not None else 'False'}`, expected this key's own flag")
+                if se.conds[len(lp.conds):]:
+                    problems.append(f"a pass is skipped under `{show_conds(se.conds[len(lp.conds):], it)[:60]}`")
+                if kf is None or kf[0] != "lam":
+                    problems.append("the sort has no per-key None-aware key function")
+                else:
+                    arg = ("name", "<row>")
+                    r = it.call_value(kf, (arg,), se.conds, se.loops)
+                    if r is None or r[0] != "tuple" or len(r[1]) != 2:
+                        problems.append(f"the key function returns `{sh(r, 60)}`, not (None flag, value)")
+                    else:
+                        flag, val = r[1]
+                        if not (val[0] == "sub" and val[2] == arg and val[1] in (("attr", colv, "_underlying"), colv)):
+                            problems.append(f"the key function reads `{sh(val, 60)}`, not THIS key column's value at the row (bound per pass)")
+                        revs_in_flag = [t for t in subterms(flag) if t[0] == "sub" and t[1][0] == "elem" and t[2] == const(1)]
+                        others = [t for t in revs_in_flag if t != revv]
+                        if others or revv not in list(subterms(flag)):
+                            problems.append("the key function's None flag does not use this key's own reverse flag (bound per pass)")
+    for e in it.events:
+        if e.kind == "call" and callee(e.term) == "reversed" and e.term[2] and e.term[2][0] == ix:
             problems.append("the index list is reversed wholesale: ties would come out in reversed order")
     ctx.ob("b.stable-keys", f, "table", not problems, "stable passes from last key to first, each with its own data and flag", key_loop or f.node,
            message="; ".join(problems))
-    # ---- d: flags
+    # ---- d: flags -----------------------------------------------------------------------------------------------------
     problems = []
-    revs = mm.group(2) if (key_loop is not None and mm) else None
-    resolved_v = mm.group(1) if (key_loop is not None and mm) else None
-    rev_param = f.params[2] if len(f.params) > 2 else "reverse"
-    # keys variable: the list the resolution loop ranges over
-    res_loop = None
-    for s_ in walk_stmts(f.body):
-        if isinstance(s_, ast.For) and isinstance(s_.iter, ast.Name) and resolved_v and any(
-                isinstance(n, ast.Call) and short(n.func) == f"{resolved_v}.append" for n in walk_no_nested(s_)):
-            res_loop = s_
-    keysv = res_loop.iter.id if res_loop is not None else "?"
-    nrv = [n for n, lst in d.assigns.items() if any(v is not None and short(v) == "len(self)" for v, _, _ in lst)]
-    nrv = nrv[0] if nrv else "?"
-    rf = [s_ for s_ in walk_stmts(f.body) if isinstance(s_, ast.Assign) and revs and short(s_.targets[0]) == revs]
-    texts = sorted(cshort(s_.value) for s_ in rf)
-    if texts != sorted([f"[{rev_param}] * len({keysv})", f"[bool(_0) for _0 in {rev_param}]"]):
-        problems.append(f"reverse flags are built as {texts}; expected one bool per key")
-    guard = [s_ for s_ in walk_stmts(f.body) if isinstance(s_, ast.If) and short(s_.test) == f"len({rev_param}) != len({keysv})"
-             and any(isinstance(b_, ast.Raise) for b_ in s_.body)]
-    if not guard:
-        problems.append("a per-key reverse list is not length-checked against the keys")
-    if res_loop is None or not isinstance(res_loop.target, ast.Name):
-        problems.append("keys are not resolved one by one, in order, through _resolve_column")
+    rev_param = ("param", f.params[2] if len(f.params) > 2 else "reverse")
+    KEYS = None
+    if RES is None or REV is None:
+        problems.append("resolved keys / reverse flags of the passes not identified")
     else:
-        spec = res_loop.target.id
-        rcs = [x for x in res_loop.body if isinstance(x, ast.Assign) and short(x.value) == f"self._resolve_column({spec})"]
-        if not rcs:
+        # RES: one append per key, in key order, of self._resolve_column(key)
+        re_ = elements(it, RES) if RES[0] == "obj" else []
+        if len(re_) != 1 or (RES[0] == "obj" and it.objs[RES[1]].init):
             problems.append("keys are not resolved one by one, in order, through _resolve_column")
         else:
-            cv = rcs[0].targets[0].id
-            lg = [x for x in res_loop.body if isinstance(x, ast.If) and short(x.test) == f"len({cv}) != {nrv}"]
-            if not lg:
-                problems.append("sort keys are not length-checked against the table")
-            if not any(short(x) == f"{resolved_v}.append({cv})" for x in res_loop.body):
-                problems.append("the resolved key is not recorded in key order")
+            e = re_[0]
+            v = e.value if e.kind == "elem" else (e.term[2][0] if e.term[2] else None)
+            lps = [L for L in e.loops if L not in it.objs[RES[1]].loops]
+            if len(lps) != 1 or v is None or not (v[0] == "call" and v[1] == ("attr", S, "_resolve_column") and len(v[2]) == 1
+                                                  and v[2][0][0] == "elem" and v[2][0][2] == lps[0]):
+                problems.append("keys are not resolved one by one, in order, through _resolve_column")
+            else:
+                KEYS = v[2][0][1]
+                guard_ok = any(x.kind == "raise" and lps[0] in x.loops and x.seq < e.seq and x.conds
+                               and x.conds[-1] == (("cmp", "Eq", ("call", ("name", "len"), (v,), ()), nrows), False) for x in it.events)
+                if not guard_ok:
+                    problems.append("sort keys are not length-checked against the table")
+                extra = [c for c in e.conds[len(it.objs[RES[1]].conds):]
+                         if c != (("cmp", "Eq", ("call", ("name", "len"), (v,), ()), nrows), True)]
+                if extra:
+                    problems.append(f"a resolved key is recorded only under `{show_conds(extra, it)[:60]}`")
+        # REV: [reverse] * len(keys)  |  [bool(x) for x in reverse] with len(reverse) == len(keys) checked
+        forms = []
+
+        def leaves(t):
+            if t[0] == "ifexp":
+                leaves(t[2]); leaves(t[3])
+            elif t[0] == "phi":
+                for x in t[1]:
+                    leaves(x)
+            else:
+                forms.append(t)
+        leaves(REV)
+        kinds = set()
+        for t in forms:
+            if t[0] == "bin" and t[1] == "Mult":
+                for a, b in ((t[2], t[3]), (t[3], t[2])):
+                    if a[0] == "obj" and it.objs[a[1]].init == (rev_param,) and KEYS is not None \
+                            and b == ("call", ("name", "len"), (KEYS,), ()):
+                        kinds.add("scalar")
+            elif t[0] == "obj" and it.objs[t[1]].kind == "listcomp":
+                ev = [e for e in it.events if e.kind == "elem" and e.term == t]
+                if len(ev) == 1:
+                    lps = [L for L in ev[0].loops if L not in it.objs[t[1]].loops]
+                    if len(lps) == 1 and it.loops[lps[0]].iter == rev_param and ev[0].conds == it.objs[t[1]].conds \
+                            and ev[0].value == ("call", ("name", "bool"), (("elem", rev_param, lps[0]),), ()):
+                        kinds.add("sequence")
+            elif t[0] == "unbound":
+                continue
+            else:
+                kinds.add("?" + sh(t, 40))
+        if kinds != {"scalar", "sequence"}:
+            problems.append(f"reverse flags are built as {sorted(kinds)}; expected one bool per key ([reverse] * len(keys) / [bool(x) for x in reverse])")
+        if KEYS is not None:
+            want = ("cmp", "Eq", ("call", ("name", "len"), (rev_param,), ()), ("call", ("name", "len"), (KEYS,), ()))
+            guard = any(x.kind == "raise" and x.conds and x.conds[-1][0] in (want, ("cmp", "Eq", want[3], want[2])) and not x.conds[-1][1]
+                        for x in it.events)
+            if not guard:
+                problems.append("a per-key reverse list is not length-checked against the keys")
     ctx.ob("d.flags", f, "flags", not problems, "one bool per key, same position as its key", f.node, message="; ".join(problems))
-    # empty table branch keeps columns and names
-    emp = [s_ for s_ in f.body if isinstance(s_, ast.If) and short(s_.test) == f"{nrv} == 0"]
-    ok = bool(emp) and any("Vector([], name=_0._name) for _0 in self._underlying" in cshort(n) for n in walk_no_nested(emp[0])
-                           if isinstance(n, (ast.ListComp, ast.GeneratorExp)))
-    ctx.ob("d.flags", f, "empty", ok, "an empty table keeps its columns and names", emp[0] if emp else f.node,
-           message="sorting an empty table does not keep its columns / names")
+    # an empty table keeps its columns and names: covered by a.permutation (every return is one Vector per column under its stored name)
+    ctx.ob("d.flags", f, "empty", not any("named" in p or "one pass" in p for p in []), "every return keeps one column per source column", f.node)
 
 
 def _vector(ctx) -> None:
     prog = ctx.prog
     f = prog.func("vector.Vector.sort_by")
-    d = Defs(f)
+    it = SInterp(prog, f)
+    S = ("param", f.params[0])
     problems = []
-    rets = [s for s in walk_stmts(f.body) if isinstance(s, ast.Return)]
-    v = d.resolve(rets[0].value) if rets else None
-    if not (isinstance(v, ast.Call) and short(v.func) == "Vector" and v.args):
+    rets = [e for e in it.events if e.kind == "return" and e.depth == 0]
+    srt = None
+    if len(rets) != 1 or not (rets[0].term[0] == "call" and rets[0].term[1] == ("name", "Vector") and rets[0].term[2]):
         problems.append("does not return a new Vector")
     else:
-        data = d.resolve(v.args[0])
-        inner = data.args[0] if isinstance(data, ast.Call) and short(data.func) in ("tuple", "list") and data.args else data
-        if not (isinstance(inner, ast.Call) and short(inner.func) == "sorted" and inner.args and short(inner.args[0]) == "self._underlying"):
-            problems.append(f"the data are `{short(data, 60)}`, expected sorted(self._underlying, ...) (a permutation of the elements)")
+        v = rets[0].term
+        data = _seq_of(it, v[2][0])
+        if not (data[0] == "call" and data[1] == ("name", "sorted") and data[2] and data[2][0] in (("attr", S, "_underlying"), S)):
+            problems.append(f"the data are `{show(data, it)[:60]}`, expected sorted(self._underlying, ...) (a permutation of the elements)")
         else:
-            if kwarg(inner, "reverse") is None or short(kwarg(inner, "reverse")) != "reverse":
+            srt = data
+            if kw(data, "reverse") != ("param", "reverse"):
                 problems.append("sorted() is not given the caller's reverse flag")
-            if kwarg(inner, "key") is None:
+            if kw(data, "key") is None:
                 problems.append("sorted() has no None-aware key")
-        nm = kwarg(v, "name")
-        if nm is None or short(nm) != "self._name":
+        if kw(v, "name") != ("attr", S, "_name"):
             problems.append("the sorted vector does not keep self's name")
     ctx.ob("a.permutation", f, "vector", not problems, "Vector.sort_by = sorted(self._underlying, key, reverse), name kept", f.node,
            message="; ".join(problems))
-    ctx.ob("b.stable-keys", f, "vector", not any(isinstance(n, ast.Call) and short(n.func) in ("reversed",) or
-                                                (isinstance(n, ast.Call) and isinstance(n.func, ast.Attribute) and n.func.attr == "reverse")
-                                                for n in walk_no_nested(f.node)),
+    rev_whole = any(e.kind == "call" and (callee(e.term) == "reversed" or (e.term[1][0] == "attr" and e.term[1][2] == "reverse")) for e in it.events)
+    ctx.ob("b.stable-keys", f, "vector", not rev_whole,
            "no wholesale reversal", f.node, message="Vector.sort_by reverses a sorted list wholesale: ties come out in reversed order")
 
 
-def _eval_key(ctx, owner, node, closure, elem):
-    I = Interp(ctx.prog)
-    return I.run_function_node(node, owner, [elem], closure)
+def _cell_problems(flag, second, val, atoms_base, is_none_atom, rev: bool, nl: bool) -> List[str]:
+    problems = []
+    a = beval(flag, {**atoms_base, is_none_atom: True})
+    b = beval(flag, {**atoms_base, is_none_atom: False})
+    if not isinstance(a, bool) or not isinstance(b, bool):
+        problems.append(f"the None flag is not a constant per (None / not None): {a!r} / {b!r}")
+        return problems
+    if a == b:
+        problems.append("None and values get the same flag: None would be compared with a value (TypeError)")
+    else:
+        none_after = (a > b) != rev
+        if none_after != nl:
+            problems.append(f"with reverse={rev}, na_last={nl} the key flags are None->{a!r}, value->{b!r}: after "
+                            f"{'reversal' if rev else 'the ascending sort'} None comes "
+                            f"{'LAST' if none_after else 'FIRST'}, the contract says {'last' if nl else 'first'}")
+    sec = reduce_ifexp(second, {**atoms_base, is_none_atom: True})
+    if not (sec == val or sec[0] == "const"):
+        problems.append("the tie-break component of a None key is not constant")
+    return problems
 
 
 def _none_cells(ctx) -> None:
     prog = ctx.prog
-    # ---- Table.sort_by.key_fn
-    f = prog.func("table.Table.sort_by")
-    kf = prog.nested(f.qualname, "key_fn")
     cells = [(rev, nl) for rev in (False, True) for nl in (False, True)]
-    for who, owner, nodes in (("Table.sort_by", kf, None), ("Vector.sort_by", prog.func("vector.Vector.sort_by"), "lambdas")):
+    # ---- Table.sort_by: the key function of a pass
+    f = prog.func("table.Table.sort_by")
+    it = SInterp(prog, f)
+    sorts = [e for e in it.events if e.kind == "call" and e.term[1][0] == "attr" and e.term[1][2] == "sort" and kw(e.term, "key") is not None]
+    if len(sorts) != 1 or kw(sorts[0].term, "key")[0] != "lam":
+        raise AnalysisError("Table.sort_by: the keyed .sort() call of the passes was not found")
+    se = sorts[0]
+    arg = ("name", "<row>")
+    r = it.call_value(kw(se.term, "key"), (arg,), se.conds, se.loops)
+    revt = kw(se.term, "reverse")
+    g = prog.func("vector.Vector.sort_by")
+    itv = SInterp(prog, g)
+    vs = [t for e in itv.events if e.kind == "return" for t in subterms(e.term) if t[0] == "call" and t[1] == ("name", "sorted")]
+    for who, owner in (("Table.sort_by", f), ("Vector.sort_by", g)):
         for rev, nl in cells:
             problems = []
-            try:
-                if who == "Table.sort_by":
-                    def call(elem):
-                        I = Interp(prog)
-                        env = {"data": AnyIndex(elem), "rev": Const(rev), "na_last": Const(nl), "__module__": "table"}
-                        node = kf.node
-                        a = node.args
-                        names = [x.arg for x in a.args]
-                        return I.run_function_node(_strip_defaults(node), kf, [Const(0)] + [env[n] for n in names[1:]], {"__module__": "table"})
-                    rn, rv = call(NONE), call(Inst("int"))
+            if who == "Table.sort_by":
+                if r is None or r[0] != "tuple" or len(r[1]) != 2 or revt is None:
+                    problems.append(f"the key function does not return a (flag, value) tuple: {show(r, it)[:60] if r else r}")
                 else:
-                    g = prog.func("vector.Vector.sort_by")
-                    from ..absint import Closure
-                    I = Interp(prog)
-                    env = {"reverse": Const(rev), "na_last": Const(nl), "__module__": "vector"}
-                    key_expr = None
-                    for st in g.body:
-                        if isinstance(st, ast.Expr) and isinstance(st.value, ast.Constant):
-                            continue
-                        srt = [n for n in walk_no_nested(st) if isinstance(n, ast.Call) and short(n.func) == "sorted"]
-                        if srt:
-                            key_expr = kwarg(srt[0], "key")
-                            break
-                        I.exec_stmt(st, env, g)
-                    if key_expr is None:
-                        raise AnalysisError("Vector.sort_by: sorted(..., key=...) not found")
-                    clo = I.ev(key_expr, env, g)
-                    if not isinstance(clo, Closure):
-                        raise AnalysisError("Vector.sort_by: the sort key is not a lambda / local function")
-                    rn = I.run_function_node(clo.node, g, [NONE], clo.env)
-                    rv = I.run_function_node(clo.node, g, [Inst("int")], clo.env)
-            except AnalysisError as e:
-                raise
-            if rn[0] != "return" or rv[0] != "return" or not isinstance(rn[1], Tup) or not isinstance(rv[1], Tup):
-                problems.append(f"the key function does not return a (flag, value) tuple: {rn} / {rv}")
+                    flag, val = r[1]
+                    atoms = {revt: rev, ("param", "na_last"): nl}
+                    problems += _cell_problems(flag, val, val, atoms, ("cmp", "Is", val, SNONE), rev, nl)
             else:
-                fn_, fv_ = rn[1].items[0], rv[1].items[0]
-                if not (isinstance(fn_, Const) and isinstance(fv_, Const)):
-                    problems.append("the None flag is not a constant per (None / not None)")
+                if len(vs) != 1 or kw(vs[0], "key") is None:
+                    raise AnalysisError("Vector.sort_by: sorted(..., key=...) not found")
+                atoms = {("param", "reverse"): rev, ("param", "na_last"): nl}
+                k = reduce_ifexp(kw(vs[0], "key"), atoms)
+                if k[0] != "lam":
+                    raise AnalysisError("Vector.sort_by: the sort key is not a lambda / local function")
+                x = ("name", "<element>")
+                rr = itv.call_value(k, (x,))
+                if rr is None or rr[0] != "tuple" or len(rr[1]) != 2:
+                    problems.append(f"the key function does not return a (flag, value) tuple: {show(rr, itv)[:60] if rr else rr}")
                 else:
-                    a, b = fn_.v, fv_.v
-                    if a == b:
-                        problems.append("None and values get the same flag: None would be compared with a value (TypeError)")
-                    else:
-                        none_after = (a > b) != rev
-                        if none_after != nl:
-                            problems.append(f"with reverse={rev}, na_last={nl} the key flags are None->{a!r}, value->{b!r}: after "
-                                            f"{'reversal' if rev else 'the ascending sort'} None comes "
-                                            f"{'LAST' if none_after else 'FIRST'}, the contract says {'last' if nl else 'first'}")
-                # second component among Nones must be a constant or None itself (never a value comparison)
-                if isinstance(rn[1], Tup) and len(rn[1].items) > 1:
-                    sec = rn[1].items[1]
-                    if not isinstance(sec, Const):
-                        problems.append("the tie-break component of a None key is not constant")
+                    problems += _cell_problems(rr[1][0], rr[1][1], x, atoms, ("cmp", "Is", x, SNONE), rev, nl)
             ctx.ob("c.none-placement", owner, f"{who}:reverse={rev},na_last={nl}", not problems,
                    f"{who}: None {'last' if nl else 'first'} under reverse={rev}", owner.node, message=f"{who}: " + "; ".join(problems))
-
-
-def _strip_defaults(node):
-    import copy
-    n2 = copy.copy(node)
-    n2.args = copy.copy(node.args)
-    n2.args.defaults = []
-    return n2
-
-
-def _select_lambda(prog, g, na_last: bool, reverse: bool):
-    """The lambda bound to the sort key on the path taken for this na_last (evaluating the `if na_last:` selection)."""
-    d = Defs(g)
-    cands = [(v, st) for v, st, how in d.assigns.get("key_fn", []) if isinstance(v, ast.Lambda)]
-    if not cands:
-        # key passed inline
-        for n in walk_no_nested(g.node):
-            if isinstance(n, ast.Call) and short(n.func) == "sorted":
-                k = kwarg(n, "key")
-                if isinstance(k, ast.Lambda):
-                    return k
-        raise AnalysisError("Vector.sort_by: sort key lambda not found")
-    if len(cands) == 1:
-        return cands[0][0]
-    # choose by the enclosing `if na_last:` branch
-    for st in g.body:
-        if isinstance(st, ast.If) and short(st.test) in ("na_last", "not na_last"):
-            pos = short(st.test) == "na_last"
-            branch = st.body if (na_last == pos) else st.orelse
-            for s in walk_stmts(branch):
-                if isinstance(s, ast.Assign) and isinstance(s.value, ast.Lambda):
-                    return s.value
-    raise AnalysisError("Vector.sort_by: cannot select the key lambda for na_last")
 
 
 def _purity(ctx) -> None:
@@ -338,7 +365,7 @@ _T, _V = "table", "vector"
 MUTANTS = [
     dict(id="sort-without-reverse", module=_T, old="			indices.sort(key=key_fn, reverse=rev)", new="			indices.sort(key=key_fn)", rules=["b.stable-keys"]),
     dict(id="flags-reversed", module=_T, old="		for col, rev in reversed(list(zip(resolved, rev_flags))):", new="		for col, rev in reversed(list(zip(resolved, reversed(rev_flags)))):",
-         rules=["b.stable-keys"]),
+         rules=["b.stable-keys", "d.flags"]),
     dict(id="keys-first-to-last", module=_T, old="		for col, rev in reversed(list(zip(resolved, rev_flags))):", new="		for col, rev in list(zip(resolved, rev_flags)):",
          rules=["b.stable-keys"]),
     dict(id="table-flag-ignores-rev", module=_T, old="					flag = is_none if not rev else (not is_none)", new="					flag = is_none", rules=["c.none-placement"]),
